@@ -244,6 +244,15 @@ class Extractor:
                 name = '__old%d' % len(olds)
                 olds.append((name, inner))
                 out += e[i:j] + name; i = k
+        # pre-state macros of model/ada_types.h hide __CPROVER_old() from the textual substitution below: expand them first
+        def expand(e):
+            for _ in range(3):
+                e = re.sub(r'AGG_CRED_KEPT\((\w+)\)', r'(AGG_HAS_USER(\1) == AGG_HAS_USER_OLD(\1) && AGG_HAS_PASS(\1) == AGG_HAS_PASS_OLD(\1))', e)
+                e = re.sub(r'AGG_HAS_USER_OLD\((\w+)\)', r'(__CPROVER_old((\1)->components.protocol_end) + 2u < __CPROVER_old((\1)->components.username_end))', e)
+                e = re.sub(r'AGG_HAS_PASS_OLD\((\w+)\)', r'(__CPROVER_old((\1)->components.host_start) > __CPROVER_old((\1)->components.username_end))', e)
+                e = re.sub(r'AGG_HOST_EMPTY_OLD\((\w+)\)', r'(__CPROVER_old((\1)->components.host_start) == __CPROVER_old((\1)->components.host_end))', e)
+            return e
+        ens = [expand(e) for e in ens]
         ens2 = [old_sub(e) for e in ens]
         for name, inner in olds:
             body.append('  __typeof__(%s) %s = %s;' % (inner, name, inner))
